@@ -274,7 +274,7 @@ def run(ctx):
     warnings.filterwarnings("ignore")
     from quantecon.markov import DiscreteDP, backward_induction
 
-    n_inst = 220 if thorough else 90
+    n_inst = 450 if thorough else 90
     insts = []
     # hand-made corner cases first: single state, all ties, beta in {0,1}
     insts.append(Inst(1, 1, [[Fraction(2)]], [[[Fraction(1)]]], Fraction(1, 2), True, "corner"))
